@@ -265,5 +265,5 @@ func zzNoCrash(n int) {
 	vrt.Assert(root != nil || err != nil, "decode returns a tree or an error")
 }
 
-func VerifNoCrash()     { zzNoCrash(4) }
-func VerifNoCrashLong() { zzNoCrash(6) }
+func VerifNoCrash()     { zzNoCrash(3) }
+func VerifNoCrashLong() { zzNoCrash(4) }
